@@ -49,6 +49,15 @@ theorem render_safe (src : List Char) (sp : Span) (hsize : src.length < sizeBoun
     renderErrOK src sp = true ∧ renderDiagOK src sp = true :=
   Lemmas.PosRender.render_safe src sp hsize hin hord
 
+/-- The same for a program text that is not valid UTF-8 (Go decodes every invalid byte to one
+U+FFFD rune, so a line has at least as many bytes as runes and at most four times as many): the
+conclusion only needs that much about the byte lengths `bl k` of the lines. -/
+theorem render_safe_any_encoding (bl : Nat → Nat) (src : List Char) (sp : Span)
+    (hbl : Lemmas.PosRender.ByteLens bl src) (hsize : src.length < sizeBound)
+    (hin : InText src sp) (hord : Ordered sp) :
+    renderErrOK src sp = true ∧ renderDiagOKWith bl src sp = true :=
+  Lemmas.PosRender.render_safe_with bl src sp hbl hsize hin hord
+
 /-- The all-zero span makes `errors.Error.Display` index `lines[-1]` (Go: index out of range). -/
 theorem render_err_whole_file_counterexample :
     WholeFile ⟨Loc.zero, Loc.zero⟩ ∧ Ordered ⟨Loc.zero, Loc.zero⟩
